@@ -5,4 +5,4 @@ cd "$(dirname "$0")"
 export CARGO_NET_OFFLINE=true
 (cd akd-lint && cargo +nightly build --release --offline)
 # one extraction per quick-tier configuration warms /verif/.target/D and the fact cache
-python3 -m analysis.extract D
+python3 -m analysis.extract D W
